@@ -222,6 +222,17 @@ pub fn run() {
                 let mut hs = Vec::new();
                 let at_ret: Arc<Mutex<Vec<usize>>> = Arc::new(Mutex::new(Vec::new()));
                 let cross = a.get("cross").map(|s| s == "1").unwrap_or(false);
+                // busy=ms: the router thread is parked inside a callback for that long when shutdown() is requested, so the request
+                // stays pending while other threads offer routes
+                let busy: u64 = a.get("busy").map(|s| s.parse().unwrap()).unwrap_or(0);
+                let mut busy_keep = None;
+                if busy > 0 {
+                    let (btx, brx) = ipc::channel::<u32>().unwrap();
+                    proxy.add_route(brx.to_opaque(), Box::new(move |_m| std::thread::sleep(std::time::Duration::from_millis(busy))));
+                    let _ = btx.send(1);
+                    std::thread::sleep(std::time::Duration::from_millis(15));
+                    busy_keep = Some(btx);
+                }
                 let other = RouterProxy::new(); // cross=1: shutdown() is called from a callback running on ANOTHER router's thread
                 for _ in 0..nshut {
                     let p = proxy.clone();
@@ -256,6 +267,32 @@ pub fn run() {
                 }
                 // routes offered while / after the shutdown is in progress
                 let mut late_handles = Vec::new();
+                if busy > 0 {
+                    // the shutdown request is pending (its caller waits for the acknowledgement): routes offered from several threads
+                    std::thread::sleep(std::time::Duration::from_millis(busy / 4 + 5));
+                    let mut ths = Vec::new();
+                    for j in 0..4u32 {
+                        let (p, lg) = (proxy.clone(), log.clone());
+                        ths.push(std::thread::spawn(move || {
+                            let (ltx, lrx) = ipc::channel::<(u32, u32)>().unwrap();
+                            let _ = ltx.send((3000 + j, 0));
+                            let g = Guard(lg.clone(), 3000 + j);
+                            p.add_route(
+                                lrx.to_opaque(),
+                                Box::new(move |_m| {
+                                    let _keep = &g;
+                                    lg.push("call", 3000 + j, 0, 0)
+                                }),
+                            );
+                            ltx
+                        }));
+                    }
+                    for t in ths {
+                        if let Ok(ltx) = t.join() {
+                            late_handles.push(ltx);
+                        }
+                    }
+                }
                 for j in 0..late {
                     let (ltx, lrx) = ipc::channel::<(u32, u32)>().unwrap();
                     let _ = ltx.send((1000 + j, 0));
@@ -336,6 +373,7 @@ pub fn run() {
                 );
                 drop(late_handles);
                 drop(wave2_keep);
+                drop(busy_keep);
                 other.shutdown();
                 continue;
             },
